@@ -2,6 +2,7 @@ package gen
 
 import (
 	"fmt"
+	"strings"
 
 	. "verifharness/lang"
 )
@@ -29,13 +30,14 @@ func init() {
 }
 
 type Renaming struct {
-	Labels      map[string]string // print labels: old -> new
-	Collisions  int               // binders given a deliberately colliding spelling
-	AliasShadows int              // case payloads deliberately spelled like the provider alias
-	Permuted    bool
-	FuncsRen    int
-	TypesRen    int
-	BranchesRen int
+	Labels         map[string]string // print labels: old -> new
+	Collisions     int               // binders given a deliberately colliding spelling
+	AliasShadows   int               // case payloads deliberately spelled like the provider alias
+	CrossNamespace int               // functions spelled like a type, a channel or a label
+	Permuted       bool
+	FuncsRen       int
+	TypesRen       int
+	BranchesRen    int
 }
 
 type renamer struct {
@@ -351,15 +353,42 @@ func Rename(p *Program, intn func(int) int, opts ...RenameOpts) (*Program, *Rena
 	r.pool = SortedKeys(names)
 	// functions, types, labels
 	if intn(2) == 1 {
-		for i, d := range p.Defs {
-			r.funcs[d.Name] = fmt.Sprintf("g%d", i)
-			info.FuncsRen++
-		}
-	}
-	if intn(2) == 1 {
 		for i, t := range p.Types {
 			r.types[t.Name] = fmt.Sprintf("ty%d", i)
 			info.TypesRen++
+		}
+	}
+	if intn(2) == 1 {
+		// functions: fresh spellings, or - the namespaces are separate - the spelling of a type,
+		// of a channel name used somewhere in the program, or of a branch label
+		used := map[string]bool{}
+		for i, d := range p.Defs {
+			n := fmt.Sprintf("g%d", i)
+			switch intn(5) {
+			case 1:
+				if len(p.Types) > 0 {
+					t := p.Types[intn(len(p.Types))].Name
+					if nn, ok := r.types[t]; ok {
+						t = nn
+					}
+					n = t
+				}
+			case 2:
+				if len(r.pool) > 0 {
+					n = r.pool[intn(len(r.pool))]
+				}
+			case 3:
+				n = []string{"a", "b", "z", "s", "l", "lb"}[intn(6)]
+			}
+			if used[n] || keywords[n] || strings.HasPrefix(n, "exec") {
+				n = fmt.Sprintf("g%d", i)
+			}
+			if n != fmt.Sprintf("g%d", i) {
+				info.CrossNamespace++
+			}
+			used[n] = true
+			r.funcs[d.Name] = n
+			info.FuncsRen++
 		}
 	}
 	if intn(2) == 1 {
@@ -372,7 +401,9 @@ func Rename(p *Program, intn func(int) int, opts ...RenameOpts) (*Program, *Rena
 			seen[fmt.Sprintf("%p", t)] = true
 			for _, b := range t.Brs {
 				if _, ok := r.brs[b.L]; !ok {
-					r.brs[b.L] = fmt.Sprintf("lb%d", len(r.brs))
+					// deliberately prefix-related spellings: l, lb, lbb, ... (every label is a
+					// proper prefix of all later ones)
+					r.brs[b.L] = "l" + strings.Repeat("b", len(r.brs))
 					info.BranchesRen++
 				}
 				walk(b.T)
